@@ -243,7 +243,7 @@ func TestC17_ParseProduct(t *testing.T) {
 func TestC17_ParseRapid(t *testing.T) {
 	rec := evid.For("C17")
 	c17Notes(rec)
-	pbt.Check(t, rec, "parse", evid.Pick(20000, 400000), func(rt *rapid.T) (any, error) {
+	pbt.Check(t, rec, "parse", evid.Pick(60000, 500000), func(rt *rapid.T) (any, error) {
 		var c c17Parse
 		if rapid.Bool().Draw(rt, "fromParts") {
 			p := uriParts{
